@@ -54,6 +54,12 @@ func Spec(id, tier string) *core.CheckSpec {
 			{Engine: "chainsim", Label: "swarm", Seconds: sec(45, 600), Opt: core.Options{}},
 			{Engine: "chainsim", Label: "late-forks", Seconds: sec(25, 300), Opt: core.Options{Params: p("forks", "late")}},
 		}
+		if id == "C04" || id == "C05" {
+			// every exported SSZ type behind the stream seam (object store with faulty disk and wire)
+			cs.Batches[0].Seconds = sec(35, 500)
+			cs.Batches[1].Seconds = sec(15, 250)
+			cs.Batches = append(cs.Batches, core.Batch{Engine: "codecsim", Label: "object-store-all-types", Seconds: sec(25, 400), Opt: core.Options{}})
+		}
 	case "C18":
 		cs.Level = "fault_enumeration"
 		cs.Batches = []core.Batch{
